@@ -532,6 +532,9 @@ func (rngdata *RangeNamespaceData) ReadFrom(reader io.Reader) (int64, error) {
 	}
 
 	rngdata.Shares = make([][]libshare.Share, len(nd))
+	// the receiver may be reused for several responses (one per attempt): drop the proofs of the
+	// previous response, otherwise a stale last-row proof survives a single-row response
+	rngdata.FirstIncompleteRowProof, rngdata.LastIncompleteRowProof = nil, nil
 	for i, row := range nd {
 		rngdata.Shares[i] = row.Shares
 		if i == 0 {
